@@ -300,8 +300,8 @@ func cloneSpec(s txgen.TxSpec) txgen.TxSpec {
 
 func script(r *common.Rand, thorough bool) string {
 	n := r.Pick([]int{0, 1, 2, 3, 5, 9, 25, 25, 34})
-	if thorough && r.Chance(6) {
-		n = r.Pick([]int{75, 76, 252, 253, 254, 300})
+	if r.Chance(5) || (thorough && r.Chance(6)) { // lengths where a script push prefix and a compact-size prefix differ (76..), varint boundaries
+		n = r.Pick([]int{75, 76, 77, 252, 253, 254, 255, 256, 300})
 	}
 	return common.Hex(r.Bytes(n))
 }
@@ -370,6 +370,14 @@ func Run(prop string, legacy bool) {
 			nin, nout = 1+rnd.Intn(4), rnd.Intn(5)
 		}
 		r.txCases(gen(rnd, nin, nout, c.Thorough()), -1, "generated")
+	}
+	// output scripts, previous scripts and unlocking scripts of 76, 255, 256 and 300 bytes (where a script push prefix
+	// and the compact-size length prefix of the preimage differ), on every input
+	for _, n := range []int{76, 255, 256, 300} {
+		s := gen(rnd, 2, 3, false)
+		s.Outs[0].Script, s.Outs[2].Script = common.Hex(rnd.Bytes(n)), common.Hex(rnd.Bytes(n+1))
+		s.Ins[1].Prev, s.Ins[0].Unlock, s.Ins[0].UnlockNil = common.Hex(rnd.Bytes(n)), common.Hex(rnd.Bytes(n)), false
+		r.txCases(s, -1, "long-scripts")
 	}
 	// missing previous script on the signed input / on another input; empty (non-nil) script
 	{
